@@ -101,10 +101,33 @@ shim_set_entropy_cb(shim_entropy_cb cb)
 	ent_cb = cb;
 }
 
+/*
+ * Descriptor lifetime: an application may close every descriptor it does not
+ * know about (daemon idiom) and open files of its own, which then get the same
+ * numbers.  A cookie from entropy_read_init() that was obtained before such a
+ * moment no longer reads the OS source but somebody else's file.
+ */
+static unsigned long fd_epoch;
+static unsigned long stale_reads;
+
+void
+shim_app_closes_descriptors(void)
+{
+
+	fd_epoch++;
+}
+
+unsigned long
+shim_stale_descriptor_reads(void)
+{
+
+	return (stale_reads);
+}
+
 #ifdef C11_REPLACE_ENTROPY
 /* Same prototypes as util/entropy.h. */
 struct entropy_read_cookie {
-	int dummy;
+	unsigned long epoch;
 };
 
 int
@@ -120,7 +143,11 @@ struct entropy_read_cookie *
 entropy_read_init(void)
 {
 
-	return (calloc(1, sizeof(struct entropy_read_cookie)));
+	struct entropy_read_cookie * er;
+
+	if ((er = calloc(1, sizeof(struct entropy_read_cookie))) != NULL)
+		er->epoch = fd_epoch;
+	return (er);
 }
 
 int
@@ -128,7 +155,12 @@ entropy_read_fill(struct entropy_read_cookie * er, uint8_t * buf,
     size_t buflen)
 {
 
-	(void)er;
+	if (er->epoch != fd_epoch) {
+		/* The number now belongs to a file of the application. */
+		stale_reads++;
+		memset(buf, 'A', buflen);
+		return (0);
+	}
 	return (entropy_read(buf, buflen));
 }
 
